@@ -31,6 +31,7 @@ CLAIMS = {
              "Reported). Both objective kinds: for a list-valued objective every value keeps / flips its sign exactly once and the cost is "
              "np.dot(values, weights) of the weights the task was built with (ghost W0; assumed of np.dot: a function of the elements, "
              "dot(-a, w) = -dot(a, w), dot(a, w) = dot(w, a)). "
+             "Decoding: Task.transform_solution decodes exactly the coordinates of the reported position, variable by variable (see C14). "
              "EFF: PROV, FRAME-view, CALLS (single evaluation chain). Bounded: recomputation of every reported cost on real runs.",
              NOTE_VC + NOTE_HOOKS + "The user's objective is an uninterpreted deterministic function F.", TECH_VC + "; " + TECH_EFF + "; " + TECH_BND),
     "C03": C("Proved for all populations, ties, both directions and any pool order: special_agents / best_agents / sort_by_cost return the "
@@ -55,7 +56,9 @@ CLAIMS = {
     "C06": C("Proved: optimize() raises ValueError iff no configuration / workers <= 0 / unknown mode / objective-weight count mismatch, and "
              "before any cycle; every kernel function on the optimize path is free of implicit exceptions (index, unpack, None, divisor) under "
              "its precondition, in all three modes, including the element-wise sign flip of list objectives; validators raise iff the "
-             "documented condition. Bounded (labelled): exceptions inside the 84 optimizer bodies, keyed by (optimizer, exception, "
+             "documented condition - incl. Task.validate_objective_weights (raises iff some weight is negative; numpy's element-wise comparison "
+             "and np.all assumed) and the validate_bounds / constructors of the composite variables (length mismatch, inverted or equal bounds, "
+             "n_vars <= 0). Bounded (labelled): exceptions inside the 84 optimizer bodies, keyed by (optimizer, exception, "
              "function) on continuous tasks and by (optimizer, encoding) on integer-coded tasks against the committed expectation.",
              NOTE_VC + NOTE_HOOKS, TECH_VC + "; " + TECH_BND),
     "C07": C("Proved: on every path of optimize() the numpy global RNG is seeded with task.seed before any draw (ghost flag), for every "
@@ -102,10 +105,14 @@ CLAIMS = {
              "members unchanged, is idempotent; randomize within bounds; validators raise iff bounds inverted / equal, n_vars <= 0, patience < 1. "
              "Proved (reals/ints): DiscreteVariable.correct / get_bounds / randomize. Proved: the four multi-variables (continuous, discrete, "
              "multi-objective, binary) correct child-wise - one result per child, each by that child's own rule (abstract Variable contract: "
-             "into the domain, members unchanged), for list and ndarray arguments - and get() returns the children. Bounded (law campaign, "
-             "1772 law instances): permutation, label encoder, multi-variable construction, fp corner cases of the discrete clip, numpy scalars.",
-             NOTE_VC + "Permutation / LabelEncoder and the constructors of the multi-variables are outside the VC subset (numpy idioms, "
-             "pydantic construction): bounded only.", TECH_VC + "; " + TECH_BND),
+             "into the domain, members unchanged), for list and ndarray arguments - and get() returns the children; their randomize draws one "
+             "member per child, in order (child-wise against the abstract randomize contract) and their decode decodes entry r with child r; "
+             "validate_bounds of the two continuous composites raises iff the lists differ in length or some upper <= lower; the constructors "
+             "of ContinuousMultiVariable / MultiObjectiveVariable / BinaryVariable reject exactly those definitions (n_vars <= 0) and "
+             "otherwise build one fresh child per coordinate with that coordinate's bounds (two choices per bit). Bounded (law campaign, "
+             "1927 law instances): permutation, label encoder, DiscreteMultiVariable construction, fp corner cases of the discrete clip, numpy scalars.",
+             NOTE_VC + "Permutation / LabelEncoder and the constructor of DiscreteMultiVariable are outside the VC subset (numpy idioms, "
+             "lists of lists): bounded only. np.any / np.array on a list of booleans assumed (exists / same elements).", TECH_VC + "; " + TECH_BND),
     "C14": C("Proved: Task.__init__ sets space_dimension to the sum of the variables' sizes and keeps the variables in order; "
              "get_variables returns exactly one flattened variable per coordinate, in declaration order (flat(task, i) = the child that owns "
              "coordinate i, by prefix sums of the sizes); get_bounds returns one lower / upper entry per coordinate, each the bound its "
@@ -113,13 +120,21 @@ CLAIMS = {
              "correct_solution has one coordinate per dimension and acts coordinate-wise with the owning flattened variable; "
              "initial_solution, solve. All against the abstract Variable contract (size / has_children / get / randomize / get_bounds / "
              "correct). The seven classes' size / has_children / get are verified against that abstract contract under their object "
-             "invariants. Bounded (law campaign over 30 variable mixes incl. size-1 multi-variables, single permutations and several "
-             "tasks of one layout in one process): constructors establish the invariants, randomize / get_bounds of the composite "
-             "classes, lower <= upper, transform_solution.",
+             "invariants; randomize / decode of the four composites and get_bounds of the two continuous composites likewise (the declared "
+             "lists themselves, lower first). transform_solution returns one entry per declared variable, in declaration order, keyed by "
+             "its name: a leaf's entry is Dec(variable, x[off]) of its own coordinate, a composite's entry is a list of its size whose "
+             "r-th element is Dec(child r, x[off + r]) (loop invariant counter = off(task, j); the dict is represented by its insertion log; "
+             "a scalar passed to a composite's decode - or a slice to a leaf's - fails a precondition). Bounded (law campaign over 30 "
+             "variable mixes incl. size-1 multi-variables, single permutations and several tasks of one layout in one process): the "
+             "ghost part of the invariants (kids / vsize / child are what the constructors built), get_bounds of DiscreteMultiVariable / "
+             "BinaryVariable / PermutationVariable, lower <= upper, transform_solution on real tasks.",
              NOTE_VC + "Object invariant of Task / Variable (task_wf, var_wf: the variable list and the children are the ones built by the "
              "constructors) is assumed at entry of the Task methods: the constructor part about space_dimension is proved, the package "
              "never writes these fields (EFF FRAME-cfg). Prefix-sum / segment lemmas are axioms (proved in lemmas/L2.lean). "
-             "transform_solution builds a dict with run-time keys: outside the VC subset, bounded only.", TECH_VC + "; " + TECH_BND),
+             "transform_solution's dict is modelled by its insertion log (keys and values in insertion order; the dict is a function of the log, "
+             "and equals it item for item when the variable names are pairwise distinct); lists stored as dict values are boxed into the "
+             "abstract value sort. The abstract Variable.decode contract (Dec(var, value); composites child-wise) is assumed for the leaves "
+             "with a table look-up (Discrete / Permutation: law campaign).", TECH_VC + "; " + TECH_BND),
     "C15": C("Proved: optimize()'s loop invariant keeps every recorded generation (history-ok, history-owns-its-lists): the Population constructor "
              "owns a fresh list, hooks may only rebind the population; EFF FRAME-view / FRAME-book / POP-own on all 84 classes (no view field "
              "of an existing agent is ever written, no position list mutated through an alias). Proved: agent_trend / agent_position / "
